@@ -85,6 +85,14 @@ fn sum(a: &BTreeMap<String, Int256>, b: &BTreeMap<String, Int256>) -> BTreeMap<S
 }
 
 pub fn c01(j: &mut Judge, v: &StepView) {
+    // Once an accepted request of this history went through a product beyond 96 bits, amounts
+    // recorded for the order it touched may be off by a unit against what the contract later
+    // recomputes (known finding B.7); the exact ledger identities then carry that unit for the
+    // rest of the history, so the case is no longer judged.
+    if j.tracker.asks.values().chain(j.tracker.bids.values()).any(|t| t.tainted) {
+        j.label("case-left-decidable-zone");
+        return;
+    }
     if v.out.kind == Kind::DispatchFailed && v.out.why.contains("insufficient contract funds") {
         j.violate(
             Prop::C01,
